@@ -4,6 +4,7 @@
 EXTENDS Contracts, Json, IOUtils
 Traces == ndJsonDeserialize(IOEnv.TRACE_FILE)
 
+NoBoxS(hyp, h) == \A key \in DOMAIN h.lam : h.lam[key] = 0 \/ \E i \in 1..Len(hyp) : key = ToString(i)
 SameRow(r, s) == r.co = s.co /\ r.c = s.c /\ r.k = s.k
 CountRow(s, x) == Cardinality({i \in DOMAIN s : SameRow(s[i], x)})
 BagEqRows(s, t) == Len(s) = Len(t) /\ \A i \in DOMAIN s : CountRow(s, s[i]) = CountRow(t, s[i])
@@ -11,8 +12,14 @@ SameItf(x, y) == x.inv = y.inv /\ x.outv = y.outv          \* as lists
 SameItfSets(x, y) == Set(x.inv) = Set(y.inv) /\ Set(x.outv) = Set(y.outv)
 
 \* e: [form, orig, back, exc, parsed_ok (every emitted string was accepted), exact (driver: every number bit-equal), eq (driver: ==), hints, names, g, ok]
+\* reading back re-simplifies; if the constraints ROUNDED to four significant digits are unsatisfiable the
+\* constructor legitimately raises ValueError (established by a box-free infeasibility certificate;
+\* without one, and only for inputs that rounding actually changes, the event is unjudged)
 SerialJudge(e) ==
-  IF e.exc # "none" THEN <<"violation", "round-trip-raised:" \o e.exc>>
+  IF e.exc = "ValueError" /\ e.infeas.kind = "infeasible" /\ NoBoxS(e.orig.a \o e.orig.g, e.infeas)
+     /\ InfeasOK(e.orig.a \o e.orig.g, e.names, e.infeas) THEN <<"ok", "rounded-system-unsatisfiable">>
+  ELSE IF e.exc = "ValueError" /\ e.rounded THEN <<"unjudged", "rounded-system-may-be-unsatisfiable">>
+  ELSE IF e.exc # "none" THEN <<"violation", "round-trip-raised:" \o e.exc>>
   ELSE IF e.form = "machine-dict"
   THEN (IF ~e.exact THEN <<"violation", "machine-dict:number-changed">>
         ELSE IF ~e.eq THEN <<"violation", "machine-dict:not-equal">>
